@@ -66,6 +66,8 @@ pub struct FaultPlan {
     pub after_effect: bool,
     /// only operations on lock files are failing candidates
     pub only_locks: bool,
+    /// only operations on this path (raw file name) are failing candidates ("" = any)
+    pub only_path: String,
 }
 
 thread_local! {
@@ -230,6 +232,9 @@ impl SimDir {
             return false;
         }
         if f.only_locks && !is_lock(path) {
+            return false;
+        }
+        if !f.only_path.is_empty() && path.to_string_lossy() != f.only_path.as_str() {
             return false;
         }
         if !f.permanent && k != f.k {
